@@ -288,7 +288,10 @@ func (c *RollingFileAppender) clearExpiredFiles() {
 		if entry.IsDir() {
 			continue
 		}
-		if !strings.HasPrefix(entry.Name(), c.FileName+".") {
+		// Only files this appender itself created are candidates: other
+		// appenders and programs may share the "<name>." prefix.
+		suffix, ok := strings.CutPrefix(entry.Name(), c.FileName+".")
+		if !ok || !isRotationSuffix(suffix) {
 			continue
 		}
 		info, err := entry.Info()
@@ -300,4 +303,18 @@ func (c *RollingFileAppender) clearExpiredFiles() {
 			_ = os.Remove(filePath)
 		}
 	}
+}
+
+// isRotationSuffix reports whether s has the form produced by
+// TimeRotation.Format, i.e. the 14 digits of "yyyyMMddHHmmss".
+func isRotationSuffix(s string) bool {
+	if len(s) != 14 {
+		return false
+	}
+	for i := range len(s) {
+		if s[i] < '0' || s[i] > '9' {
+			return false
+		}
+	}
+	return true
 }
